@@ -67,17 +67,62 @@ def bracket(ctx) -> None:
     mod = prog.module(WACTOR)
     regs = [c for c in ast.walk(mod.tree) if isinstance(c, ast.Call) and core.call_name(c) == 'copyreg.pickle']
     ctx.check(len(regs) >= 1, 'R-PICKLE', WACTOR, 'metaclass-made wrapped actor classes register a copyreg reducer', key='copyreg', loc=mod.relpath)
+    from .. import equiv
+
+    def as_function(e, near):
+        """(parameter names, result expression or None, effect expressions in evaluation order) of a lambda or of a function
+        defined next to the registration (normal form: temporaries and tuple unpacking resolved)."""
+        if isinstance(e, ast.Lambda):
+            return [a.arg for a in e.args.args], e.body, list(e.body.elts) if isinstance(e.body, ast.Tuple) else [e.body]
+        if isinstance(e, ast.Name):
+            host = next((a for a in core.ancestors(near) if isinstance(a, core.FUNC)), None)
+            d = next((n for n in ast.walk(host) if isinstance(n, core.FUNC) and n.name == e.id), None) if host is not None else None
+            if d is None:
+                return None
+            params = [a.arg for a in d.args.args]
+            nf = equiv.normal_form(d, equiv._ACTIVE_SIGS)  # pylint: disable=protected-access
+            nparams = [a.arg for a in nf.args.args]
+            back = dict(zip(nparams, params))
+
+            class Back(ast.NodeTransformer):
+                def visit_Name(self, n):  # noqa: N802
+                    n.id = back.get(n.id, n.id)
+                    return n
+
+            body = [Back().visit(st) for st in nf.body]
+            # ``s, p = content`` names the slots of the argument: read as content[0], content[1]
+            slots = {}
+            for st in list(body):
+                if isinstance(st, ast.Assign) and len(st.targets) == 1 and isinstance(st.targets[0], ast.Tuple) and all(isinstance(t, ast.Name) for t in st.targets[0].elts) and isinstance(st.value, ast.Name) and st.value.id in params:
+                    for k, t in enumerate(st.targets[0].elts):
+                        slots[t.id] = ast.Subscript(value=ast.Name(id=st.value.id, ctx=ast.Load()), slice=ast.Constant(value=k), ctx=ast.Load())
+                    body.remove(st)
+
+            class Slots(ast.NodeTransformer):
+                def visit_Name(self, n):  # noqa: N802
+                    return slots.get(n.id, n) if isinstance(n.ctx, ast.Load) else n
+
+            body = [Slots().visit(st) for st in body]
+            if not all(isinstance(st, (ast.Expr, ast.Return, ast.Pass)) for st in body):
+                return None
+            ret = next((st.value for st in body if isinstance(st, ast.Return)), None)
+            return params, ret, [st.value for st in body if isinstance(st, ast.Expr)] + ([ret] if ret is not None else [])
+        return None
+
     for r in regs:
-        lam = r.args[1] if len(r.args) > 1 else None
-        if not isinstance(lam, ast.Lambda) or not isinstance(lam.body, ast.Tuple):
+        red = as_function(r.args[1], r) if len(r.args) > 1 else None
+        if red is None or not isinstance(red[1], ast.Tuple) or len(red[0]) != 1:
             ctx.fail('R-PICKLE', WACTOR, 'reducer shape not recognised', key='reducer', loc=f'{mod.relpath}:{r.lineno}')
             continue
-        elts = lam.body.elts
-        state = core.src(elts[2]) if len(elts) > 2 else ''
-        setter = elts[5] if len(elts) > 5 else None
-        a = lam.args.args[0].arg
+        elts = red[1].elts
+        state = ast.unparse(elts[2]) if len(elts) > 2 else ''
+        a = red[0][0]
         ctx.check(state == f'({a}.get_state(), {a}.get_params())', 'R-PICKLE', WACTOR, f'the reducer exports (state, params): {state}', key='reducer:state', loc=f'{mod.relpath}:{r.lineno}')
-        ok = isinstance(setter, ast.Lambda) and core.src(setter.body) == f'({setter.args.args[0].arg}.set_state({setter.args.args[1].arg}[0]), {setter.args.args[0].arg}.set_params(**{setter.args.args[1].arg}[1]))'
+        setter = as_function(elts[5], r) if len(elts) > 5 else None
+        ok = False
+        if setter is not None and len(setter[0]) == 2:
+            i, c = setter[0]
+            ok = [ast.unparse(x) for x in setter[2]] in ([f'({i}.set_state({c}[0]), {i}.set_params(**{c}[1]))'], [f'{i}.set_state({c}[0])', f'{i}.set_params(**{c}[1])'])
         ctx.check(ok, 'R-PICKLE', WACTOR, 'and restores the state first, the parameters second, from the matching slots', key='reducer:setter', loc=f'{mod.relpath}:{r.lineno}')
 
 
